@@ -174,6 +174,10 @@ def execReturn (m : Pomdp) (vf : VF) : Nat → Nat → (Nat → Rat) → Rat
     let e := entry vf (h+1) id
     rewardB m b e.action + m.disc * sumTo m.O (fun o => execReturn m vf h (link e o) (tau m b e.action o))
 
+/-- the POMDP as the Projecter sees it: observation columns it deems impossible carry no mass -/
+def cutModel (m : Pomdp) : Pomdp :=
+  { m with Ob := fun a s o => if possible m a o then m.Ob a s o else 0 }
+
 /-! ## Policy -/
 
 /-- lexicographic `veccmp(l, r) > 0` on the first `S` components -/
